@@ -306,3 +306,19 @@ pub mod verif_hooks_variables {
         _shift_to_cone_interior(z, cones, pd)
     }
 }
+
+// Add-only access for the external verification harness (/verif, properties C01-C03).
+#[cfg(feature = "verif-hooks")]
+#[allow(missing_docs)]
+pub mod verif_variables {
+    use super::*;
+
+    /// call-through to the crate-private `DefaultVariables::unscale`
+    pub fn unscale<T: FloatT>(
+        v: &mut DefaultVariables<T>,
+        data: &DefaultProblemData<T>,
+        is_infeasible: bool,
+    ) {
+        v.unscale(data, is_infeasible)
+    }
+}
